@@ -352,8 +352,39 @@ PlanClean(f, m) ==
   IN retPlan \o (IF doCompact THEN cf.plan ELSE <<>>)
      \o <<CP("clean.before_swap"), [i |-> "msegs", v |-> newsegs]>> \o epochPlan
 
+-----------------------------------------------------------------------------
+(* recovery: commitlog.New on whatever the directory holds, as a plan: New  *)
+(* passes crash points too (segment.after_open_log once per segment,        *)
+(* epoch.before_flush in ClearLatest / ClearEarliest), so a crash DURING    *)
+(* recovery is a crash like any other                                       *)
+
+Down == [up |-> FALSE, segs |-> <<>>, hw |-> -1, ep |-> <<>>]
+
+\* open(): os.ReadDir is sorted, so per base offset the .index file is seen
+\* (and removed if its .log file is missing) before the .log file is opened;
+\* suffix files are ignored; newSegment creates a missing index, setupIndex
+\* validates it (reidx); no segment at all: a fresh one at offset 0.  Then the
+\* in-memory state is set up (recmem) and the epoch cache is trimmed.
+RecoverPlan(f) ==
+  LET logs == {k[1] : k \in {k \in DOMAIN f.lf : k[2] = ""}}
+      idxs == {k[1] : k \in {k \in DOMAIN f.xf : k[2] = ""}}
+      bases == SortedSeq(logs \cup idxs)
+      perBase == Flat([i \in 1..Len(bases) |->
+                   LET k == Key(bases[i], "") IN
+                   IF bases[i] \in logs
+                   THEN <<CP("segment.after_open_log"), I1("mkidx", k), I1("reidx", k)>>
+                   ELSE <<I1("rmidx", k)>>])
+      fresh == IF logs = {}
+               THEN <<I1("mklog", Key(0, "")), CP("segment.after_open_log"), I1("mkidx", Key(0, ""))>>
+               ELSE <<>>
+  IN perBase \o fresh
+     \o <<[i |-> "recmem"],
+          [i |-> "clmem"], CP("epoch.before_flush"), [i |-> "wep"],
+          [i |-> "cemem"], CP("epoch.before_flush"), [i |-> "wep"]>>
+
+
 \* Close(): checkpoint the high watermark; then New() on the directory
-PlanReopen == <<CP("hw.before_checkpoint"), [i |-> "whw"], [i |-> "reopen"]>>
+PlanReopen(f) == <<CP("hw.before_checkpoint"), [i |-> "whw"], [i |-> "down"]>> \o RecoverPlan(f)
 
 Plan(f, m, op) ==
   CASE op.a = "Append" -> PlanAppend(f, m, op.recs)
@@ -363,32 +394,9 @@ Plan(f, m, op) ==
     [] op.a = "NewLeaderEpoch" -> PlanNewLeaderEpoch(m, op.e)
     [] op.a = "Truncate" -> PlanTruncate(f, m, op.o)
     [] op.a = "Clean" -> PlanClean(f, m)
-    [] op.a = "Reopen" -> PlanReopen
+    [] op.a = "Reopen" -> PlanReopen(f)
 
------------------------------------------------------------------------------
-(* recovery: commitlog.New on whatever the directory holds *)
-
-Down == [up |-> FALSE, segs |-> <<>>, hw |-> -1, ep |-> <<>>]
-
-RecoverFS(f) ==
-  LET live0 == {k[1] : k \in {k \in DOMAIN f.lf : k[2] = ""}}
-      \* open(): an .index file without its .log file is removed; suffix files are ignored
-      xf1 == [k \in {k \in DOMAIN f.xf : k[2] # "" \/ k[1] \in live0} |-> f.xf[k]]
-      \* no segment at all: a fresh one at offset 0
-      lf2 == IF live0 = {} THEN Put(f.lf, Key(0, ""), <<>>) ELSE f.lf
-      live == IF live0 = {} THEN {0} ELSE live0
-      \* newSegment(): the index file is created when missing; setupIndex
-      xf2 == [k \in (DOMAIN xf1) \cup {Key(b, "") : b \in live} |->
-                IF k[2] = "" THEN Reindexed(lf2[k], Get(xf1, k)) ELSE xf1[k]]
-      bases == SortedSeq(live)
-      segs == [i \in 1..Len(bases) |-> SegOf(bases[i], xf2[Key(bases[i], "")])]
-      hw == IF f.hwf = NoHW THEN -1 ELSE f.hwf
-      ep1 == ClearLatest(f.epf, SegNext(Last(segs)))
-      ep2 == ClearEarliest(ep1, segs[1].first)
-  IN [fs |-> [lf |-> lf2, xf |-> xf2, hwf |-> f.hwf, epf |-> ep2],
-      mem |-> [up |-> TRUE, segs |-> segs, hw |-> hw, ep |-> ep2]]
-
------------------------------------------------------------------------------
+-----
 (* the effect machine *)
 
 \* S = [fs, mem, todo, ret, err]
@@ -414,7 +422,26 @@ Apply(S) ==
     [] h.i = "mhw" -> [T EXCEPT !.mem.hw = h.v]
     [] h.i = "ret" -> [T EXCEPT !.ret = h.v]
     [] h.i = "fail" -> [T EXCEPT !.err = h.err, !.todo = <<>>]
-    [] h.i = "reopen" -> LET R == RecoverFS(f) IN [T EXCEPT !.fs = R.fs, !.mem = R.mem]
+    \* New(): the segment list from the .log files (first/last offset from the index
+    \* files), the HW from its checkpoint file, the epoch cache from its file
+    [] h.i = "recmem" ->
+         LET bases == SortedSeq({k[1] : k \in {k \in DOMAIN f.lf : k[2] = ""}}) IN
+         [T EXCEPT !.mem = [up |-> TRUE,
+                            segs |-> [j \in 1..Len(bases) |-> SegOf(bases[j], Get(f.xf, Key(bases[j], "")))],
+                            hw |-> IF f.hwf = NoHW THEN -1 ELSE f.hwf,
+                            ep |-> f.epf]]
+    \* ClearLatest(next offset) / ClearEarliest(oldest offset): the flush (the two
+    \* instructions that follow) only happens when the cache changes
+    [] h.i = "clmem" ->
+         LET off == SegNext(Last(S.mem.segs)) IN
+         [T EXCEPT !.mem.ep = ClearLatest(@, off),
+                   !.todo = IF ClearLatestFlushes(S.mem.ep, off) THEN @ ELSE SubSeq(@, 3, Len(@))]
+    [] h.i = "cemem" ->
+         LET off == S.mem.segs[1].first IN
+         [T EXCEPT !.mem.ep = ClearEarliest(@, off),
+                   !.todo = IF ClearEarliestFlushes(S.mem.ep, off) THEN @ ELSE SubSeq(@, 3, Len(@))]
+    \* Close() has returned: the process state is gone, New() starts
+    [] h.i = "down" -> [T EXCEPT !.mem = Down]
 
 Begin(f, m, op) == [fs |-> f, mem |-> m, todo |-> Plan(f, m, op), ret |-> <<>>, err |-> ""]
 
@@ -429,6 +456,17 @@ RunTo(S, p, n) ==
        IF h.i = "cp" /\ h.p = p
        THEN IF n = 1 THEN [S |-> S, hit |-> TRUE] ELSE RunTo(Apply(S), p, n - 1)
        ELSE RunTo(Apply(S), p, n)
+
+BeginRecover(f) == [fs |-> f, mem |-> Down, todo |-> RecoverPlan(f), ret |-> <<>>, err |-> ""]
+\* recovery executed to completion
+RecoverFS(f) == LET S == RunAll(BeginRecover(f)) IN [fs |-> S.fs, mem |-> S.mem]
+\* the directory left by nr >= 0 further crashes during recovery: rcs is a
+\* sequence of [p, n] (crash in front of the n-th passage of p of that attempt)
+RECURSIVE CrashedRecoveries(_, _)
+CrashedRecoveries(f, rcs) ==
+  IF rcs = <<>> THEN [fs |-> f, hit |-> TRUE]
+  ELSE LET R == RunTo(BeginRecover(f), Head(rcs).p, Head(rcs).n) IN
+       IF ~R.hit THEN [fs |-> f, hit |-> FALSE] ELSE CrashedRecoveries(R.S.fs, Tail(rcs))
 
 \* crash points an operation passes, in order (with repetitions)
 PointsOf(f, m, op) == LET cps == SelectSeq(Plan(f, m, op), LAMBDA h : h.i = "cp") IN
@@ -466,12 +504,25 @@ DoRecover ==
   /\ obs' = [a |-> "Recover", ret |-> <<>>, err |-> ""]
   /\ UNCHANGED cfg
 
+\* the recovering process is killed as well, in front of the n-th passage of p
+DoRecoverCrash(p, n) ==
+  /\ ~mem.up
+  /\ LET R == RunTo(BeginRecover(fs), p, n) IN R.hit /\ fs' = R.S.fs
+  /\ mem' = Down
+  /\ obs' = [a |-> "RecoverCrash", ret |-> <<>>, err |-> ""]
+  /\ UNCHANGED cfg
+
+\* crash sites of a recovery attempt
+RecoverPointsOf(f) == LET S0 == BeginRecover(f) IN
+                      LET cps == SelectSeq(S0.todo, LAMBDA h : h.i = "cp") IN [i \in 1..Len(cps) |-> cps[i].p]
+
 \* crash + reopen in one step (what a recorded crash run shows)
-DoCrashRecover(op, p, n) ==
+DoCrashRecover(op, p, n, rcs) ==
   /\ mem.up
   /\ LET R == RunTo(Begin(fs, mem, op), p, n)
-         V == RecoverFS(R.S.fs) IN
-     /\ R.hit
+         C == CrashedRecoveries(R.S.fs, rcs)
+         V == RecoverFS(C.fs) IN
+     /\ R.hit /\ C.hit
      /\ fs' = V.fs /\ mem' = V.mem
   /\ obs' = [a |-> "CrashRecover", ret |-> <<>>, err |-> ""]
   /\ UNCHANGED cfg
